@@ -86,29 +86,30 @@ Record pstate := mkP {
   clients : zmap;             (* client -> chain id of its client state *)
   conns : zmap;               (* connection -> client *)
   chans : zmap;               (* provider-port channel -> its single connection hop *)
+  closed : Z -> bool;         (* provider-port channel end is in state CLOSED *)
   next_client : Z;            (* 02-client's identifier counter *)
   (* ghost: (consumer, client) of every successful launch, newest first *)
   launch_log : list (Z * Z)
 }.
 
 Definition pinit : pstate :=
-  mkP mempty mempty mempty mempty (fun _ => PH_NONE) [] mempty mempty mempty 0 [].
+  mkP mempty mempty mempty mempty (fun _ => PH_NONE) [] mempty mempty mempty (fun _ => false) 0 [].
 
 Definition set_phase (s : pstate) (c p : Z) : pstate :=
   mkP (fwd s) (rev s) (c2ch s) (ch2c s) (fun x => if x =? c then p else phase s x) (to_remove s)
-      (clients s) (conns s) (chans s) (next_client s) (launch_log s).
+      (clients s) (conns s) (chans s) (closed s) (next_client s) (launch_log s).
 
 (* keeper.go SetConsumerClientId: delete the reverse entry of a previous client, set forward, set reverse *)
 Definition set_consumer_client (s : pstate) (c x : Z) : pstate :=
   let rev1 := match fwd s c with Some prev => del (rev s) prev | None => rev s end in
   mkP (upd (fwd s) c x) (upd rev1 x c) (c2ch s) (ch2c s) (phase s) (to_remove s)
-      (clients s) (conns s) (chans s) (next_client s) (launch_log s).
+      (clients s) (conns s) (chans s) (closed s) (next_client s) (launch_log s).
 
 (* keeper.go DeleteConsumerClientId: delete the reverse entry of the current client, delete forward *)
 Definition delete_consumer_client (s : pstate) (c : Z) : pstate :=
   let rev1 := match fwd s c with Some x => del (rev s) x | None => rev s end in
   mkP (del (fwd s) c) rev1 (c2ch s) (ch2c s) (phase s) (to_remove s)
-      (clients s) (conns s) (chans s) (next_client s) (launch_log s).
+      (clients s) (conns s) (chans s) (closed s) (next_client s) (launch_log s).
 
 (* keeper.go getUnderlyingClient: connection -> client id, the client state must exist.  inl = error class *)
 Definition underlying (s : pstate) (conn : Z) : Z + Z :=
@@ -163,7 +164,7 @@ Definition chan_open_confirm (s : pstate) (ch : Z) : pstate * Z :=
         | Some _ => (s, E_DUP)
         | None =>
           (mkP (fwd s) (rev s) (upd (c2ch s) c ch) (upd (ch2c s) ch c) (phase s) (to_remove s)
-               (clients s) (conns s) (chans s) (next_client s) (launch_log s), OK)
+               (clients s) (conns s) (chans s) (closed s) (next_client s) (launch_log s), OK)
         end
       end
     end
@@ -184,7 +185,7 @@ Definition launch_on_connection (s : pstate) (c chain conn : Z) : option pstate 
         if bound_elsewhere then None
         else let s1 := set_consumer_client s c x in
              Some (mkP (fwd s1) (rev s1) (c2ch s1) (ch2c s1) (phase s1) (to_remove s1)
-                       (clients s1) (conns s1) (chans s1) (next_client s1) ((c, x) :: launch_log s1))
+                       (clients s1) (conns s1) (chans s1) (closed s1) (next_client s1) ((c, x) :: launch_log s1))
     end
   end.
 
@@ -200,7 +201,7 @@ Definition launch_on_connection_unchecked (s : pstate) (c chain conn : Z) : opti
       if negb (xchain =? chain) then None
       else let s1 := set_consumer_client s c x in
            Some (mkP (fwd s1) (rev s1) (c2ch s1) (ch2c s1) (phase s1) (to_remove s1)
-                     (clients s1) (conns s1) (chans s1) (next_client s1) ((c, x) :: launch_log s1))
+                     (clients s1) (conns s1) (chans s1) (closed s1) (next_client s1) ((c, x) :: launch_log s1))
     end
   end.
 
@@ -210,7 +211,7 @@ Definition launch_fresh (s : pstate) (c chain : Z) : pstate :=
   let x := next_client s in
   let s1 := set_consumer_client s c x in
   mkP (fwd s1) (rev s1) (c2ch s1) (ch2c s1) (phase s1) (to_remove s1)
-      (upd (clients s1) x chain) (conns s1) (chans s1) (x + 1) ((c, x) :: launch_log s1).
+      (upd (clients s1) x chain) (conns s1) (chans s1) (closed s1) (x + 1) ((c, x) :: launch_log s1).
 
 (* MsgCreateConsumer (unknown consumer) or MsgUpdateConsumer (REGISTERED consumer) with a due spawn time, then
    BeginBlockLaunchConsumers: LaunchConsumer on a cached context; on failure the consumer is REGISTERED. *)
@@ -230,17 +231,26 @@ Definition launch (s : pstate) (c chain : Z) (conn : option Z) : pstate * Z :=
 Definition stop_consumer (s : pstate) (c : Z) : pstate :=
   let s1 := set_phase s c PH_STOPPED in
   mkP (fwd s1) (rev s1) (c2ch s1) (ch2c s1) (phase s1) (to_remove s1 ++ [c])
-      (clients s1) (conns s1) (chans s1) (next_client s1) (launch_log s1).
+      (clients s1) (conns s1) (chans s1) (closed s1) (next_client s1) (launch_log s1).
 
-(* DeleteConsumerChain (the parts that touch the bindings): only a STOPPED consumer; DeleteConsumerClientId,
-   then, if the consumer has a channel, both channel mappings; phase DELETED.  A failing deletion is skipped. *)
+(* keeper.go chanCloseInit -> channelKeeper.ChanCloseInit: the channel end becomes CLOSED *)
+Definition close_chan (s : pstate) (ch : Z) : pstate :=
+  mkP (fwd s) (rev s) (c2ch s) (ch2c s) (phase s) (to_remove s)
+      (clients s) (conns s) (chans s) (fun x => if x =? ch then true else closed s x) (next_client s) (launch_log s).
+
+(* DeleteConsumerChain (the parts that touch the bindings): only a STOPPED consumer; DeleteConsumerClientId;
+   then, if the consumer has a channel: the channel is closed if its end exists and is not CLOSED yet, and BOTH
+   channel mappings are deleted whatever the state of the channel end; phase DELETED.
+   A failing deletion is skipped. *)
 Definition delete_consumer (s : pstate) (c : Z) : pstate :=
   if negb (phase s c =? PH_STOPPED) then s
   else
     let s1 := delete_consumer_client s c in
     let s2 := match c2ch s1 c with
-              | Some ch => mkP (fwd s1) (rev s1) (del (c2ch s1) c) (del (ch2c s1) ch) (phase s1) (to_remove s1)
-                               (clients s1) (conns s1) (chans s1) (next_client s1) (launch_log s1)
+              | Some ch =>
+                let s1' := if has (chans s1) ch && negb (closed s1 ch) then close_chan s1 ch else s1 in
+                mkP (fwd s1') (rev s1') (del (c2ch s1') c) (del (ch2c s1') ch) (phase s1') (to_remove s1')
+                    (clients s1') (conns s1') (chans s1') (closed s1') (next_client s1') (launch_log s1')
               | None => s1
               end in
     set_phase s2 c PH_DELETED.
@@ -249,7 +259,7 @@ Definition delete_consumer (s : pstate) (c : Z) : pstate :=
 Definition purge (s : pstate) : pstate :=
   let s1 := fold_left delete_consumer (to_remove s) s in
   mkP (fwd s1) (rev s1) (c2ch s1) (ch2c s1) (phase s1) []
-      (clients s1) (conns s1) (chans s1) (next_client s1) (launch_log s1).
+      (clients s1) (conns s1) (chans s1) (closed s1) (next_client s1) (launch_log s1).
 
 (* relay.go: the consumer a packet on channel ch is attributed to (GetChannelIdToConsumerId) *)
 Definition attribute (s : pstate) (ch : Z) : option Z := ch2c s ch.
@@ -269,22 +279,23 @@ Inductive pop :=
 | PAckErr (ch : Z)                             (* OnAcknowledgementPacket with an error acknowledgement *)
 | PRecvSlash (ch : Z)                          (* OnRecvSlashPacket *)
 | PCloseInit
-| PCloseConfirm.
+| PCloseConfirm
+| PWorldClose (ch : Z).                        (* world: the channel end is closed by IBC core (e.g. counterparty close) *)
 
 (* result of a step: (error class, attributed consumer or -1) *)
 Definition pstep (s : pstate) (o : pop) : pstate * (Z * Z) :=
   match o with
   | PAddClient chain =>
     (mkP (fwd s) (rev s) (c2ch s) (ch2c s) (phase s) (to_remove s)
-         (upd (clients s) (next_client s) chain) (conns s) (chans s) (next_client s + 1) (launch_log s), (OK, -1))
+         (upd (clients s) (next_client s) chain) (conns s) (chans s) (closed s) (next_client s + 1) (launch_log s), (OK, -1))
   | PAddConn conn x =>
     if has (conns s) conn then (s, (OK, -1))
     else (mkP (fwd s) (rev s) (c2ch s) (ch2c s) (phase s) (to_remove s)
-              (clients s) (upd (conns s) conn x) (chans s) (next_client s) (launch_log s), (OK, -1))
+              (clients s) (upd (conns s) conn x) (chans s) (closed s) (next_client s) (launch_log s), (OK, -1))
   | PAddChan ch conn =>
     if has (chans s) ch then (s, (OK, -1))
     else (mkP (fwd s) (rev s) (c2ch s) (ch2c s) (phase s) (to_remove s)
-              (clients s) (conns s) (upd (chans s) ch conn) (next_client s) (launch_log s), (OK, -1))
+              (clients s) (conns s) (upd (chans s) ch conn) (closed s) (next_client s) (launch_log s), (OK, -1))
   | PLaunch c chain conn => let '(s1, r) := launch s c chain conn in (s1, (r, -1))
   | PTry order port cpport version hops => (s, (chan_open_try s order port cpport version hops, -1))
   | PConfirm ch => let '(s1, r) := chan_open_confirm s ch in (s1, (r, -1))
@@ -293,7 +304,14 @@ Definition pstep (s : pstate) (o : pop) : pstate * (Z * Z) :=
   | PStop c =>
     if phase s c =? PH_LAUNCHED then (stop_consumer s c, (OK, -1)) else (s, (E_PHASE, -1))
   | PPurge => (purge s, (OK, -1))
-  | PTimeout ch | PAckErr ch =>
+  | PTimeout ch =>
+    (* OnTimeoutPacket; when the callback succeeds IBC core closes the ORDERED channel (TimeoutExecuted);
+       when it fails the whole transaction is reverted *)
+    match attribute s ch with
+    | Some c => (close_chan (stop_consumer s c) ch, (OK, c))
+    | None => (s, (E_UNKNOWN_CHAN, -1))
+    end
+  | PAckErr ch =>
     match attribute s ch with
     | Some c => (stop_consumer s c, (OK, c))
     | None => (s, (E_UNKNOWN_CHAN, -1))
@@ -305,6 +323,7 @@ Definition pstep (s : pstate) (o : pop) : pstate * (Z * Z) :=
     end
   | PCloseInit => (s, (E_CLOSE, -1))
   | PCloseConfirm => (s, (OK, -1))
+  | PWorldClose ch => if has (chans s) ch then (close_chan s ch, (OK, -1)) else (s, (OK, -1))
   end.
 
 Definition prun (ops : list pop) : pstate := fold_left (fun s o => fst (pstep s o)) ops pinit.
@@ -409,9 +428,10 @@ Definition crun (s0 : cstate) (ops : list cop) : cstate := fold_left (fun s o =>
 
    provider input : [0, [nc, nx, nch], [op...]]      op = [tag, args..., oracle...] (oracles are used by [mon] only)
      [1, chain] [2, conn, x] [3, ch, conn] [4, c, chain, [conn]?, [x, chain_ok]] [5, order, port, cpport, version, [hops], x]
-     [6, ch, x] [7] [8] [9, c] [10] [11, ch] [12, ch] [13, ch, x] [14] [15]
+     [6, ch, x] [7] [8] [9, c] [10] [11, ch, x] [12, ch, x] [13, ch, x] [14] [15] [16, ch]
    provider output: per step [result, attributed, [[client, channel, phase] per consumer < nc],
-                              [consumer per client < nx], [consumer per channel < nch]]     (-1 = none)
+                              [consumer per client < nx], [consumer per channel < nch],
+                              [channel end CLOSED per channel < nch]]                          (-1 = none)
    consumer input : [1, [provider client, [[conn, client]...]], [op...]]
      [1, conn, x] [2, order, port, version, cpport, [hops]] [3] [4, md, transfer_exists, chan_exists] [5] [6, ch] [7, ch] [8]
    consumer output: per step [result, provider client, provider channel, transfer]                              *)
@@ -435,6 +455,7 @@ Definition decode_pop (t : tree) : pop :=
   | 12 => PAckErr (a 1%nat)
   | 13 => PRecvSlash (a 1%nat)
   | 14 => PCloseInit
+  | 16 => PWorldClose (a 1%nat)
   | _ => PCloseConfirm
   end.
 
@@ -446,7 +467,8 @@ Definition pobserve (nc nx nch : Z) (s : pstate) (r : Z * Z) : tree :=
   TL [ TI (fst r); TI (snd r);
        TL (map (fun c => of_zs [oz (fwd s c); oz (c2ch s c); phase s c]) (range nc));
        of_zs (map (fun x => oz (rev s x)) (range nx));
-       of_zs (map (fun ch => oz (ch2c s ch)) (range nch)) ].
+       of_zs (map (fun ch => oz (ch2c s ch)) (range nch));
+       of_zs (map (fun ch => if closed s ch then 1 else 0) (range nch)) ].
 
 Fixpoint prun_obs (nc nx nch : Z) (s : pstate) (ops : list pop) : list tree :=
   match ops with
@@ -500,6 +522,7 @@ Definition decode_pobs (t : tree) : pobs :=
 Definition nthz (l : list Z) (i : Z) : Z := if i <? 0 then -1 else nth (Z.to_nat i) l (-1).
 Definition ofwd (o : pobs) (c : Z) : Z := if c <? 0 then -1 else nthz (nth (Z.to_nat c) (o_cons o) []) 0.
 Definition oc2ch (o : pobs) (c : Z) : Z := if c <? 0 then -1 else nthz (nth (Z.to_nat c) (o_cons o) []) 1.
+Definition ophase (o : pobs) (c : Z) : Z := if c <? 0 then 0 else nth 2 (nth (Z.to_nat c) (o_cons o) []) 0.
 Definition orev (o : pobs) (x : Z) : Z := nthz (o_rev o) x.
 Definition och2c (o : pobs) (ch : Z) : Z := nthz (o_ch2c o) ch.
 Definition zlen {A} (l : list A) : Z := Z.of_nat (length l).
@@ -527,6 +550,16 @@ Definition stable (a b : pobs) : bool :=
                     ((oc2ch a c <? 0) || (oc2ch b c <? 0) || (oc2ch a c =? oc2ch b c)))
           (range (zlen (o_cons a))).
 
+(* a deleted consumer is bound to nothing and nothing is attributed to it (12); it stays deleted (13) *)
+Definition mon_deleted (prev o : pobs) : list Z :=
+  let cs := range (zlen (o_cons o)) in
+  let dead c := (0 <=? c) && (ophase o c =? PH_DELETED) in
+  flag (forallb (fun c => negb (dead c) || ((ofwd o c <? 0) && (oc2ch o c <? 0))) cs &&
+        forallb (fun ch => negb (dead (och2c o ch))) (range (zlen (o_ch2c o))) &&
+        forallb (fun x => negb (dead (orev o x))) (range (zlen (o_rev o))) &&
+        negb (dead (o_attr o))) 12 ++
+  flag (forallb (fun c => negb (ophase prev c =? PH_DELETED) || (ophase o c =? PH_DELETED)) cs) 13.
+
 (* is client x (>= 0) bound, by both indices, to a consumer without channel in observation o? *)
 Definition bound_free (o : pobs) (x : Z) : bool :=
   let c := orev o x in (0 <=? x) && (0 <=? c) && (ofwd o c =? x) && (oc2ch o c <? 0).
@@ -534,7 +567,7 @@ Definition bound_free (o : pobs) (x : Z) : bool :=
 Definition mon_step (prev : pobs) (op : tree) (o : pobs) : list Z :=
   let a n := tz (tnth n op) in
   let ok := o_res o =? 0 in
-  mon_bij o ++ flag (stable prev o) 11 ++
+  mon_bij o ++ flag (stable prev o) 11 ++ mon_deleted prev o ++
   match a 0%nat with
   | 4 => (* launch: [4, c, chain, [conn]?, [x, chain_ok]] *)
     let c := a 1%nat in
